@@ -48,16 +48,19 @@ theorem code_fragment_refused (c : Cell) (offline : Bool) (h1 : c.rt = .code) (h
 
 /-- what a completed flow consists of -/
 theorem completed_flow_shape (c : Cell) (offline : Bool) (o : Outcome) (h : run c offline = some o) :
-    -- the token endpoint is visited exactly when a code came back, user info exactly then too
-    o.tokenResponse = o.codeFront ∧ o.userinfoCalled = o.codeFront ∧
-    -- an ID token always reaches the relying party: in front or through the token endpoint
-    (o.idTokenFront = true ∨ o.tokenResponse = true) ∧
+    -- the token endpoint is visited exactly when a code came back WITHOUT an access token beside it; user info whenever there is an access token
+    o.tokenResponse = (o.codeFront && !o.tokenFront) ∧ o.userinfoCalled = o.accessToken ∧
+    -- an ID token reaches the relying party — in front or through the token endpoint — except for the two response types that ask for none
+    (o.idToken = false ↔ (c.rt = .codeToken ∨ c.rt = .token)) ∧ (o.idToken = (o.idTokenFront || o.tokenResponse)) ∧
+    -- the relying party ends up with an access token except in the pure implicit ID-token flow
+    (o.accessToken = false ↔ c.rt = .idToken) ∧
     -- a refresh token only comes with a token response and only when offline access was asked for
     (o.refreshToken = true → o.tokenResponse = true ∧ offline = true) ∧
     -- the ID token travels encrypted exactly when the client registered an encryption algorithm
     (o.idTokenEncrypted = true ↔ c.ienc ≠ .none) ∧
     -- the calls, in order
-    o.calls = (if c.req = .pushed then [Call.pushed] else []) ++ [Call.authorization] ++ (if o.codeFront then [Call.token, Call.userinfo] else []) := by
+    o.calls = (if c.req = .pushed then [Call.pushed] else []) ++ [Call.authorization] ++
+      (if o.tokenFront then [Call.userinfo] else if o.codeFront then [Call.token, Call.userinfo] else []) := by
   unfold run at h
   cases hp : placement c.rt c.rm with
   | none => rw [hp] at h; cases h
@@ -65,11 +68,13 @@ theorem completed_flow_shape (c : Cell) (offline : Bool) (o : Outcome) (h : run 
     rw [hp] at h
     simp only [Option.some.injEq] at h
     subst h
-    refine ⟨rfl, rfl, ?_, ?_, ?_, rfl⟩
-    · cases c.rt <;> simp [hasIdTokenFront, hasCode]
+    refine ⟨rfl, ?_, ?_, rfl, ?_, ?_, ?_, rfl⟩
+    · cases c.rt <;> simp [hasTokenFront, hasCode]
+    · cases c.rt <;> simp [hasIdTokenFront, hasCode, hasTokenFront]
+    · cases c.rt <;> simp [hasCode, hasTokenFront]
     · intro hr
       simp only [Bool.and_eq_true] at hr
-      exact hr
+      exact ⟨by simp [hr.1.1, hr.1.2], hr.2⟩
     · simp
 
 /-- the placement is the default of the response type unless a mode was asked for -/
@@ -88,8 +93,8 @@ theorem sub_views_agree (sub : Str) :
 
 /-- non-vacuity: the number of cells, how many complete, a worked cell -/
 theorem product_size :
-    (allRT.length * allRM.length * allAM.length * allFmt.length * allFmt.length * allSig.length * allEnc.length * allUI.length * allReq.length * 2 = 129024) ∧
-    ((allRT.flatMap fun rt => allRM.filter fun rm => (placement rt rm).isSome).length = 9) := by
+    (allRT.length * allRM.length * allAM.length * allFmt.length * allFmt.length * allSig.length * allEnc.length * allUI.length * allReq.length * 2 = 301056) ∧
+    ((allRT.flatMap fun rt => allRM.filter fun rm => (placement rt rm).isSome).length = 21) := by
   decide
 
 example : (run { rt := .codeIdToken, rm := .formPost, am := .privateKeyJwt, atf := .jwt, rtf := .opaque, ialg := .hs256, ienc := .ecdhEs, ui := .enc,
